@@ -268,7 +268,12 @@ class Parser:
         self.block_comments = []
         self.comments = []
         data = self.pre_process_data(self.data)
-        regex_n = r"((?!\'[\w]*[\\']*[\w]*)\\n(?![\w]*[\\']*[\w]*\'))"
+        # a line end stays inside a literal when the rest of the literal follows it ( \\n word' ) or when
+        # it is the whole literal ( '\\n' ); a quote right after any other line end opens a literal
+        regex_n = (
+            r"((?<!\')\\n(?![\w]+[\\']*[\w]*\')"
+            r"|(?<=\')\\n(?![\w]*[\\']*[\w]*\'))"
+        )
         data = data.replace("\\t", "")
         lines = re.split(regex_n, data)
         # CRLF line ends: the carriage return is not part of the line
